@@ -230,6 +230,9 @@ func getHModel(P *Program) *hModel {
 				m.CookieDirs = callee
 			}
 		}
+		if m.CookieDirs == nil {
+			m.CookieDirs = m.CookieBuilder // the directive list is built in the cookie builder itself
+		}
 	}
 	if m.NewDeny == nil {
 		miss("newdeny")
